@@ -164,11 +164,20 @@ func (w *World) lookupInvariantUp(f *ssa.Function, ps panicSite, depth int) (str
 	var reasons []string
 	n := 0
 	for _, e := range w.CG.CallersOf(f) {
-		if e.Callback || e.Mode != ModeSync {
+		if e.Callback {
 			return "", false
 		}
 		n++
-		r, ok := w.lookupInvariantUp(enclosingNamed(e.Caller), ps, depth+1)
+		caller := enclosingNamed(e.Caller)
+		r, ok := w.lookupInvariantUp(caller, ps, depth+1)
+		if !ok {
+			// the entry may name a closure of the caller (X$1) that this function replaced
+			for _, ent := range assumedInvariant {
+				if strings.HasPrefix(ent.fn, shortFuncName(caller)+"$") && ent.kind == ps.Kind && strings.HasPrefix(ps.Desc, ent.desc) {
+					r, ok = ent.reason, true
+				}
+			}
+		}
 		if !ok {
 			return "", false
 		}
